@@ -11,7 +11,7 @@ R02.5 q→R library wrappers agree in direction; forward transform is divided by
 from __future__ import annotations
 
 import ast
-from typing import Dict, List, Optional, Set
+from typing import Dict, List, Optional, Set, Tuple
 
 from ..index import AnalysisError, call_name, norm, norm1
 from ..sem import Sem, inline_private_helpers
@@ -357,6 +357,183 @@ def run(ctx) -> None:
     r5.check(okq, "q→R: mesh placement by integer coordinates, forward transform divided by the number of mesh points", q, fcall[0] if fcall else q.node,
              "q_to_R is no longer (forward FFT over axes 0,1,2)/N_mesh of the matrices placed at their mesh coordinates", stmt="q_to_R")
 
+    # ---------------------------------------------------------------- R02.6
+    fftw_buffer_ownership(ctx, cls)
+
+    # ---------------------------------------------------------------- R02.7
+    r7 = ctx.rule("R02.7", "every Data_K object configures its own copy of the R-vectors")
+    conf_sites = []
+    for f_ in idx.all_functions():
+        if not f_.module.relpath.startswith("wannierberri/") or f_.module.relpath == RV:
+            continue
+        for c_ in method_calls(f_.node, "set_fft_R_to_k"):
+            conf_sites.append((f_, c_))
+    r7.expect(bool(conf_sites), "configuration call located", RV, rvc.node, "no caller of Rvectors.set_fft_R_to_k found")
+    FRESH = ("copy", "deepcopy")
+    for f_, c_ in conf_sites:
+        r7.instance(f"{f_.short}: {norm1(c_, 60)}")
+        recv = c_.func.value
+        FS_ = Sem(idx, f_)
+        fcfg, fdu, fpm = FS_.cfg, FS_.du, FS_.pm
+        st_ = enclosing(fpm, c_, ast.stmt)
+        okfresh, whyf = False, f"`{norm1(recv)}` is not assigned from a copy in {f_.qualname}"
+        if isinstance(recv, ast.Attribute) and isinstance(recv.value, ast.Name) and recv.value.id == "self":
+            stores = [s_ for s_ in stmts(f_.node) if isinstance(s_, ast.Assign) and len(s_.targets) == 1 and norm(s_.targets[0]) == norm(recv)]
+            doms = [s_ for s_ in stores if fcfg.dominates(fcfg.node(s_), fcfg.node(st_))]
+            if doms:
+                v_ = doms[-1].value
+                v_r = FS_.resolve(v_, fcfg.node(doms[-1]))
+                is_copy = isinstance(v_r, ast.Call) and ((isinstance(v_r.func, ast.Attribute) and v_r.func.attr in FRESH)
+                                                         or call_name(v_r) in ("copy.copy", "copy.deepcopy", "deepcopy", "Rvectors"))
+                okfresh = is_copy
+                whyf = f"`{norm1(recv)} = {norm1(v_r, 60)}` shares the object with its source"
+        elif isinstance(recv, ast.Name):
+            ds_ = fdu.reaching(recv.id, fcfg.node(st_))
+            okfresh = bool(ds_) and all(d_.value is not None and isinstance(d_.value, ast.Call) and
+                                        ((isinstance(d_.value.func, ast.Attribute) and d_.value.func.attr in FRESH) or call_name(d_.value) in ("copy.copy", "copy.deepcopy", "Rvectors"))
+                                        for d_ in ds_)
+        r7.check(okfresh, "set_fft_R_to_k is applied to a private copy of the system's R-vectors", f_, st_,
+                 f"{whyf}: set_fft_R_to_k stores the grid shift dK, the phases and the FFT object in it, so every Data_K built for the same system "
+                 f"re-configures the others — matrices are then transformed with another K-point's shift / library", stmt="rvec shared")
+    cpy = rvc.methods.get("copy")
+    okcp = False
+    if cpy is not None:
+        CS_ = Sem(idx, cpy)
+        for v_, _cs, st2 in return_cases_c02(CS_):
+            okcp = isinstance(v_, ast.Call) and call_name(v_) in ("Rvectors", "self.__class__", "type(self)", "copy.deepcopy", "deepcopy")
+    r7.check(okcp, "Rvectors.copy() builds a new object", cpy or RV, cpy.node if cpy else rvc.node,
+             "Rvectors.copy() no longer constructs a new Rvectors object", stmt="Rvectors.copy")
+
+
+def return_cases_c02(S):
+    from ..sem import return_cases
+    return return_cases(S)
+
+
+VIEW_M = ("reshape", "transpose", "swapaxes", "view", "squeeze", "ravel")
+VIEW_F = ("np.asarray", "np.moveaxis", "np.transpose", "np.swapaxes", "np.reshape", "np.squeeze", "np.ravel", "np.atleast_1d", "np.asanyarray",
+          "np.ascontiguousarray")
+
+
+def fftw_buffer_ownership(ctx, cls) -> None:
+    """R02.6 — no array is shared between the FFTW plan and a caller.
+
+    pyfftw adopts a suitably aligned input array as the plan's own input buffer and returns its own output buffer; both are
+    overwritten by the next transform.  So (a) an array handed to `self.fft_plan(...)` must not be one that is returned to the
+    caller of FFT_R_to_k.__call__, and (b) the plan's output buffer must not be returned without being copied.  Decided by a
+    may-alias analysis over the methods of FFT_R_to_k (objects = allocation sites, parameters, 'plan'); in-place slice stores copy
+    values and create no alias."""
+    idx = ctx.index
+    r6 = ctx.rule("R02.6", "FFTW plan buffers are never shared with a caller's array")
+    methods = {n: m for n, m in cls.methods.items()}
+    ret_tags: Dict[str, Set[str]] = {n: set() for n in methods}     # what the return value may alias
+    handed: Dict[str, Set[str]] = {n: set() for n in methods}       # objects handed to the plan (as plan input)
+    plan_calls = []
+
+    def analyse(name: str) -> Tuple[Set[str], Set[str]]:
+        m = methods[name]
+        cfg, du, pm = fctx(m)
+        params = [p_ for p_ in m.params if p_ != "self"]
+        memo: Dict[Tuple[int, int], Set[str]] = {}
+
+        def alias(e: ast.AST, at: int, busy: Set[Tuple[str, int]]) -> Set[str]:
+            if isinstance(e, ast.Call):
+                cn = call_name(e)
+                if norm(e.func) == "self.fft_plan":
+                    return {"plan"}
+                if isinstance(e.func, ast.Attribute) and isinstance(e.func.value, ast.Name) and e.func.value.id == "self" and e.func.attr in methods:
+                    callee = e.func.attr
+                    cps = [p_ for p_ in methods[callee].params if p_ != "self"]
+                    bind = {p_: a_ for p_, a_ in zip(cps, e.args)}
+                    bind.update({k.arg: k.value for k in e.keywords if k.arg})
+                    out: Set[str] = set()
+                    for t in ret_tags[callee]:
+                        if t.startswith("param:"):
+                            a_ = bind.get(t[6:])
+                            out |= alias(a_, at, busy) if a_ is not None else set()
+                        elif t == "plan":
+                            out.add("plan")
+                        else:
+                            out.add(f"alloc:{callee}")      # an object allocated by the callee
+                    return out
+                if isinstance(e.func, ast.Attribute) and e.func.attr in VIEW_M and cn not in VIEW_F:
+                    return alias(e.func.value, at, busy)
+                if cn in VIEW_F and e.args:
+                    return alias(e.args[0], at, busy)
+                return {f"alloc:{name}:{getattr(e, 'lineno', 0)}"}
+            if isinstance(e, (ast.BinOp, ast.UnaryOp, ast.Compare, ast.BoolOp, ast.Constant, ast.ListComp, ast.List, ast.Tuple, ast.JoinedStr)):
+                return {f"alloc:{name}:{getattr(e, 'lineno', 0)}"}
+            if isinstance(e, ast.Attribute) and e.attr == "T":
+                return alias(e.value, at, busy)
+            if isinstance(e, ast.Attribute):
+                return {f"attr:{norm(e)}"}
+            if isinstance(e, ast.Subscript):
+                return alias(e.value, at, busy)
+            if isinstance(e, ast.IfExp):
+                return alias(e.body, at, busy) | alias(e.orelse, at, busy)
+            if isinstance(e, ast.Name):
+                out = set()
+                for d in du.reaching(e.id, at):
+                    key = (e.id, d.node)
+                    if d.kind == "param":
+                        out.add(f"param:{e.id}")
+                    elif key in busy:
+                        continue
+                    elif d.kind == "aug":
+                        out |= alias(ast.Name(id=e.id, ctx=ast.Load()), d.node, busy | {key})     # in place: the same object
+                    elif d.value is not None and d.kind in ("assign", "walrus"):
+                        out |= alias(d.value, d.node, busy | {key})
+                    else:
+                        out.add(f"alloc:{name}:{d.kind}")
+                return out
+            return {f"alloc:{name}:?"}
+
+        rt: Set[str] = set()
+        hd: Set[str] = set()
+        for s_ in stmts(m.node):
+            if isinstance(s_, ast.Return) and s_.value is not None:
+                rt |= alias(s_.value, cfg.node(s_), set())
+        for c_ in ast.walk(m.node):
+            if not isinstance(c_, ast.Call):
+                continue
+            at = du.node_of_expr(c_)
+            if norm(c_.func) == "self.fft_plan" and c_.args:
+                tags = alias(c_.args[0], at, set())
+                hd |= tags
+                plan_calls.append((m, c_, tags))
+            elif isinstance(c_.func, ast.Attribute) and isinstance(c_.func.value, ast.Name) and c_.func.value.id == "self" and c_.func.attr in methods:
+                callee = c_.func.attr
+                cps = [p_ for p_ in methods[callee].params if p_ != "self"]
+                bind = {p_: a_ for p_, a_ in zip(cps, c_.args)}
+                bind.update({k.arg: k.value for k in c_.keywords if k.arg})
+                for t in handed[callee]:
+                    if t.startswith("param:") and bind.get(t[6:]) is not None:
+                        hd |= alias(bind[t[6:]], at, set())
+        return rt, hd
+
+    for _ in range(5):
+        changed = False
+        plan_calls.clear()
+        for n_ in methods:
+            rt, hd = analyse(n_)
+            if rt != ret_tags[n_] or hd != handed[n_]:
+                ret_tags[n_], handed[n_] = rt, hd
+                changed = True
+        if not changed:
+            break
+    r6.expect(bool(plan_calls), "FFTW plan execution located", f"{FF}:FFT_R_to_k", cls.node, "FFT_R_to_k: no call of self.fft_plan(...) found")
+    entry = methods.get("__call__")
+    r6.instance(f"{entry.short}: returns {sorted(ret_tags['__call__'])}; handed to the plan {sorted(handed['__call__'])}")
+    shared = {t for t in ret_tags["__call__"] & handed["__call__"] if not t.startswith("attr:")}
+    where = plan_calls[0][1] if plan_calls else entry.node
+    r6.check(not shared, "the array returned by __call__ is never the plan's input buffer", plan_calls[0][0] if plan_calls else entry, where,
+             f"the grid array built in __call__ ({sorted(shared)}) is handed to the FFTW plan without a copy and is also returned: pyfftw adopts it as "
+             f"the plan's input buffer, so a later transform through the same object overwrites a result the caller still holds "
+             f"(FFTW and numpy back ends then disagree)", stmt="plan input shared with the result")
+    r6.check("plan" not in ret_tags["__call__"], "the plan's output buffer is copied before it is returned", entry, entry.node,
+             "__call__ can return the FFTW plan's own output buffer: the next transform through the same object overwrites the matrices "
+             "returned earlier", stmt="plan output returned")
+
 
 from ..selftest import V  # noqa: E402
 
@@ -377,6 +554,13 @@ SELFTEST = [
       "            self.transform(AAA_K)\n            AAA_K *= np.prod(self.NKFFT)\n            if hermitian:\n                AAA_K = 0.5 * (AAA_K + AAA_K.swapaxes(*self.axes_hermitean).conj())\n\n        if False:\n            pass\n        elif antihermitean:",
       "fire", "R02.1"),
     V("FFT branch loses its normalisation", FF, "            AAA_K *= np.prod(self.NKFFT)\n", "", "fire", "R02.1"),
+    V("FFTW plan adopts the caller's grid array (original defect)", FF, "        return self.fft_plan(np.copy(A))\n", "        return self.fft_plan(A)\n", "fire", "R02.6"),
+    V("transform returns the plan's output buffer (seeded C02-m3)", FF, "                AAA_K[...] = self.execute_fft(AAA_K[...])\n            return AAA_K\n",
+      "                return self.execute_fft(AAA_K[...])\n            return AAA_K\n", "fire", "R02.6", edits=[(FF, "            self.transform(AAA_K)\n", "            AAA_K = self.transform(AAA_K)\n")]),
+    V("neutral: the private copy is made by the caller of execute_fft", FF, "        return self.fft_plan(np.copy(A))\n", "        return self.fft_plan(A)\n", "silent",
+      edits=[(FF, "                AAA_K[...] = self.execute_fft(AAA_K[...])\n", "                AAA_K[...] = self.execute_fft(AAA_K.copy())\n")]),
+    V("Data_K_R shares the system's Rvectors object (seeded C02-m4)", DKR, "self.rvec = system.rvec.copy()", "self.rvec = system.rvec", "fire", "R02.7"),
+    V("neutral: the private copy is made through a named temporary", DKR, "            self.rvec = system.rvec.copy()\n", "            own_rvec = system.rvec.copy()\n            self.rvec = own_rvec\n", "silent"),
     V("derivative with −i", RV, "return 1j * XX_R.reshape((XX_R.shape) + (1,))", "return -1j * XX_R.reshape((XX_R.shape) + (1,))", "fire", "R02.4"),
     V("corner Hamiltonian not Hermitised", DKR, "            _HH_K = self.rvec.R_to_k(_Ham_R, hermitian=True)\n            _Ecorners[:, iv, :] = np.linalg.eigvalsh(_HH_K)",
       "            _HH_K = self.rvec.R_to_k(_Ham_R, hermitian=False)\n            _Ecorners[:, iv, :] = np.linalg.eigvalsh(_HH_K)", "fire", "R02.4"),
